@@ -285,6 +285,14 @@ class SimStream(_StreamCommon, httpcore.NetworkStream):
     def close(self) -> None:
         net = self._net
         op = net.new_op("close", self._tr, self._layer)
+        # who closes: the httpcore functions on the stack (root-cause fact for thread-world findings)
+        import sys as _sys
+        f, chain = _sys._getframe(1), []
+        while f is not None and len(chain) < 8:
+            if "/httpcore/" in f.f_code.co_filename:
+                chain.append(f"{f.f_code.co_filename.rsplit('/', 1)[-1]}:{f.f_code.co_qualname}")
+            f = f.f_back
+        op.args["closed_from"] = chain[:6]
         net.env.sync_point(op)
         op.state = "ok"
         net._close_transport(self._tr)
